@@ -159,6 +159,9 @@ type Exec struct {
 	inInit   bool
 	pathVio  int
 	nondetN  int
+	envLog   []envLogRec
+	envResults map[string]*Term
+	serverClosed map[Ptr]bool
 	ctxTimeouts []*GoObj
 	pcSet    map[*Term]bool
 	model    map[*Term]*Term
@@ -185,6 +188,11 @@ type Exec struct {
 	maxSteps int
 	maxPaths int
 	verbose  int
+}
+
+type envLogRec struct {
+	name string
+	args []Value
 }
 
 type nondetVar struct {
